@@ -368,11 +368,32 @@ def _segment(rnd, level):
     return shape.replace('X', 'x' + suffix).replace('Y', 'y' + suffix).replace('E', 'e' + suffix)
 
 
+def _family_histories():
+    """Systematic families built around backtracking: a literal next to a variable sibling that also accepts the
+    literal's text, with every small shape of sub-level below the literal and a different continuation below the variable."""
+    out = []
+    var_siblings = ['{u}', '{u:int}', '{u}-{w}', 'm{u}', '{u:uuid}']
+    below_literal = [['p'], ['p', 's'], ['p', '{q}'], ['p', 's', 't'], ['{q:int}', 'p'], ['p/x', 's/y'], ['p/x', 'p/y']]
+    below_var = ['a', 'a/b', '{z}', '{z:int}/c', '']
+    for vs in var_siblings:
+        for bl in below_literal:
+            for bv in below_var:
+                h = ['/r/me/' + x for x in bl] + ['/r/' + vs + ('/' + bv if bv else '')]
+                out.append(h)
+                out.append(list(reversed(h)))
+    # the same one level deeper / at the root, and with a path converter as the fallback
+    for bl in below_literal[:4]:
+        out.append(['/me/' + x for x in bl] + ['/{u}/a'])
+        out.append(['/k/r/me/' + x for x in bl] + ['/k/r/{u}/a', '/k/{v}/z'])
+        out.append(['/r/me/' + x for x in bl] + ['/r/{rest:path}'])
+    return out
+
+
 def gen_histories(tier, seed):
     rnd = random.Random(seed)
-    depth = 3
-    n_hist = 260 if tier != 'thorough' else 1500
-    max_t = 4 if tier != 'thorough' else 5
+    depth = 3 if tier != 'thorough' else 4
+    n_hist = 420 if tier != 'thorough' else 2500
+    max_t = 5 if tier != 'thorough' else 6
     hist = []
     # a fixed core that must always be present (covers each segment kind, backtracking, rejected adds)
     core = [
@@ -386,14 +407,26 @@ def gen_histories(tier, seed):
         ['/a/b', '/a/b', '/a/{x:int(2)}', '/a/{x:int(2)}/c'],
         ['/x/{p:path}', '/x/{x}-{p:path}', '/x/b'],
         ['/{x}/{y}', '/a/{y}', '/a/b', '/{x}/b'],
+        ['/users/me/profile', '/users/me/settings', '/users/{uid}/avatar', '/users/{uid}'],
     ]
     hist.extend(core)
-    while len(hist) < n_hist:
+    hist.extend(_family_histories())
+    while len(hist) < n_hist + len(core):
         k = rnd.randint(2, max_t)
         h = []
         for _ in range(k):
             d = rnd.randint(1, depth)
-            h.append('/' + '/'.join(_segment(rnd, lv) for lv in range(d)))
+            segs = []
+            if h and rnd.random() < 0.65:
+                # share a prefix with a template already in the history: this is what creates sibling levels
+                base = rnd.choice(h).lstrip('/').split('/')
+                keep = rnd.randint(1, len(base))
+                segs = base[:keep]
+            while len(segs) < max(d, len(segs) + (1 if segs and rnd.random() < 0.8 else 0)):
+                segs.append(_segment(rnd, len(segs)))
+                if len(segs) >= depth:
+                    break
+            h.append('/' + '/'.join(segs))
         hist.append(h)
     return hist
 
